@@ -41,9 +41,10 @@
 (* committed and the metadata still references the part, or it committed   *)
 (* and the restored file is an unreferenced part that garbage collection   *)
 (* reclaims - no database access is needed to decide) and removes temp     *)
-(* files.  That is the intended design (Deviations = {}).  The code has no *)
-(* such pass (filesystemPartStore.Start only creates the root directory):  *)
-(* named deviation D-C10-delete-window.                                    *)
+(* files.  That is the intended design (Deviations = {}).  The code had no *)
+(* such pass (filesystemPartStore.Start only created the root directory):  *)
+(* named deviation D-C10-delete-window, fixed in /repo by 1e43c2b          *)
+(* (recoverInterruptedCommits); conformance now runs with Deviations = {}. *)
 (*                                                                         *)
 (* Part ids are fresh for every PutPart (partstore.NewRandomPartId at all  *)
 (* call sites), so PutPart's rename(final->backup) never finds a file; the *)
@@ -54,7 +55,8 @@
 EXTENDS Integers, Sequences, FiniteSets, TLC, SequencesExt
 
 CONSTANTS Deviations,   \* enabled named deviations
-          Stack,        \* "fs" | "classes" | "ec21"   (harness/stacks)
+          Stack,        \* "fs" | "classes" | "ec21" | "fs-notif"   (harness/stacks; "-notif": the notification
+                        \* middleware in front, every mutation nested in its outer transaction)
           Keys,         \* set of key symbols
           Contents,     \* set of blob symbols
           MaxSetup      \* number of un-exploded set-up operations before the exploded one
@@ -68,7 +70,7 @@ KeySet == Keys
 
 \* ------------------------------------------------------------ configuration
 StoreCfg ==
-  CASE Stack = "fs"      -> [main |-> [dirs |-> <<"parts">>, need |-> 1]]
+  CASE Stack \in {"fs", "fs-notif"} -> [main |-> [dirs |-> <<"parts">>, need |-> 1]]
     [] Stack = "classes" -> [main |-> [dirs |-> <<"parts">>, need |-> 1],
                              cold |-> [dirs |-> <<"cold">>, need |-> 1],
                              warm |-> [dirs |-> <<>>, need |-> 0]]
@@ -110,7 +112,9 @@ Ops ==
   {Op("UploadPart", k, "-", c, "-", n) : k \in KeySet, c \in Contents, n \in 1..2} \cup
   {Op("Complete", k, "-", "-", "-", 0) : k \in KeySet} \cup
   {Op("Abort", k, "-", "-", "-", 0) : k \in KeySet} \cup
-  {Op("Transition", k, "-", "-", cl, 0) : k \in KeySet, cl \in Classes}
+  {Op("Transition", k, "-", "-", cl, 0) : k \in KeySet, cl \in Classes} \cup
+  {Op("DeleteAll", "-", "-", "-", "-", 0)}      \* bulk DeleteObjects naming every key, in BulkOrder
+BulkOrder == SelectSeq(<<"k1", "k2", "k3">>, LAMBDA k : k \in KeySet)
 
 Enabled(db, o) ==
   CASE o.op = "Put"          -> TRUE
@@ -123,6 +127,7 @@ Enabled(db, o) ==
     [] o.op = "Complete"     -> db.ups[o.k] # None /\ Len(db.ups[o.k].parts) >= 1
     [] o.op = "Abort"        -> db.ups[o.k] # None
     [] o.op = "Transition"   -> db.objs[o.k] # None /\ db.objs[o.k].class # o.class
+    [] o.op = "DeleteAll"    -> \E k \in KeySet : db.objs[k] # None
 
 \* set-up macros (never exploded): a complete two-part multipart object, a pending upload with one part
 MacroOps ==
@@ -205,6 +210,15 @@ Apply(db, o) ==
          Finish0([db EXCEPT !.objs[o.k] = db.ups[o.k], !.ups[o.k] = None], db.objs[o.k].parts, <<>>)
     [] o.op = "Abort" ->
          Finish0([db EXCEPT !.ups[o.k] = None], db.ups[o.k].parts, <<>>)
+    [] o.op = "DeleteAll" ->
+         \* DeleteObjects: one transaction, the entries one after the other (metadata delete +
+         \* deleteUnreferencedParts per entry); a missing key is reported deleted and skipped
+         Bind(FoldLeft(LAMBDA acc, k :
+                         IF acc.post.objs[k] = None THEN acc
+                         ELSE Bind(Finish0([acc.post EXCEPT !.objs[k] = None], acc.post.objs[k].parts, <<>>),
+                                   LAMBDA f : [post |-> f.post, body |-> acc.body \o f.body]),
+                       [post |-> db, body |-> <<>>], BulkOrder),
+              LAMBDA r : r)
     [] o.op = "Transition" ->
          Bind(FoldLeft(LAMBDA acc, p : CopyStep(StoreOf(o.class), FALSE, acc, p),
                        [db |-> db, parts |-> <<>>, calls |-> <<>>], db.objs[o.k].parts), LAMBDA acc :
@@ -232,6 +246,14 @@ Program(body) ==
   Concat(body, BodyIns) \o (IF Concat(body, BodyIns) # <<>> THEN <<Ins("sql", "-", 0, "-")>> ELSE <<>>)
     \o Concat(body, PreIns)
     \o <<Ins("commit", "-", 0, "-"), Ins("committed", "-", 0, "-")>> \o Concat(body, AfterIns)
+\* With the notification middleware in front (bucket rule s3:ObjectRemoved:*) the operation runs
+\* nested in the middleware's transaction: same hooks, same commit; a delete that removed something
+\* enqueues outbox rows in that transaction and registers one more after-commit hook (wake the
+\* dispatcher), which runs last.
+Notifies(db, o) == /\ Stack = "fs-notif"
+                   /\ \/ o.op = "Delete"
+                      \/ o.op = "DeleteAll"
+ProgramOf(db, o, body) == Program(body) \o (IF Notifies(db, o) THEN <<Ins("notify", "-", 0, "-")>> ELSE <<>>)
 
 \* the hook point of /repo passed immediately before instruction j of p
 Label(p, j) ==
@@ -240,7 +262,7 @@ Label(p, j) ==
        [] x = "putpre2"                   -> "fs.put.between"
        [] x = "commit"                    -> "tx.sqlcommit"
        [] x = "committed"                 -> "tx.committed"
-       [] x \in {"putafter", "delafter"}  -> "tx.aftercommit"
+       [] x \in {"putafter", "delafter", "notify"}  -> "tx.aftercommit"
        [] OTHER -> IF j = 1 THEN "begin"
                    ELSE IF p[j - 1].i = "create" THEN "fs.put.tempcreated" ELSE "fs.put.tempclosed"
 Labels(p) == [j \in 1..Len(p) |-> Label(p, j)]
@@ -265,7 +287,7 @@ Exec(st, ins, post) ==
        [] ins.i = "putpre2"   -> W(Rename(fs, "tmp", "final", ins.id))
        [] ins.i = "delpre"    -> W(Rename(fs, "final", "bak", ins.id))
        [] ins.i = "commit"    -> [st EXCEPT !.db = post]
-       [] ins.i \in {"committed", "sql"} -> st
+       [] ins.i \in {"committed", "sql", "notify"} -> st
        \* each after-commit hook removes only the backup its own pre-commit hook created
        [] ins.i = "putafter"  -> W({f \in fs : ~(f.kind = "bakp" /\ f.id = ins.id)})
        [] ins.i = "delafter"  -> W({f \in fs : ~(f.kind = "bak" /\ f.id = ins.id)})
@@ -325,7 +347,7 @@ OutcomeD(st0, p, post, j, devs) ==
      ELSE "NEITHER"
 
 \* a whole set-up operation / a sequence of them
-StepAtomic(s, o) == Bind(Apply(s.db, o), LAMBDA a : Bind(Program(a.body), LAMBDA p : After(s, p, a.post, Len(p))))
+StepAtomic(s, o) == Bind(Apply(s.db, o), LAMBDA a : Bind(ProgramOf(s.db, o, a.body), LAMBDA p : After(s, p, a.post, Len(p))))
 RunSeq(s, ops) == FoldLeft(LAMBDA x, o : StepAtomic(x, o), s, ops)
 RECURSIVE SeqEnabled(_, _)
 SeqEnabled(s, ops) ==
@@ -355,6 +377,8 @@ KindBase(db, o, nput, ndel, dd) ==
     [] o.op = "UploadPart" /\ dd -> "uploadpart-dedup"
     [] o.op = "UploadPart" /\ ndel > 0 -> "uploadpart-replace"
     [] o.op = "UploadPart" -> "uploadpart"
+    [] o.op = "DeleteAll" /\ ndel > 0 -> "bulk-delete"
+    [] o.op = "DeleteAll" -> "bulk-delete-shared"
     [] OTHER -> "createupload"
 Kind(db, o) ==
   Bind(Apply(db, o).body, LAMBDA b :
@@ -390,7 +414,7 @@ ApiAtomic(o) ==
 \* the operation under test starts
 Begin(o) ==
   /\ phase = "idle" /\ Enabled(st.db, o)
-  /\ \E a \in {Apply(st.db, o)} : \E p \in {Program(a.body)} :
+  /\ \E a \in {Apply(st.db, o)} : \E p \in {ProgramOf(st.db, o, a.body)} :
         /\ run' = [p |-> p, post |-> a.post]
         /\ goal' = View(After(st, p, a.post, Len(p)))
   /\ pre' = View(st)
